@@ -59,10 +59,8 @@ WITNESSES = [
 
 
 def run_witnesses(ctx):
-    N = 3
-    tasks = [{"kind": "analyze", "text": P.prog_text(p), "goals": [g], "nvals": N + 1, "all_monomials": False, "timeout": 90}
-             for _, p, g, _ in WITNESSES]
-    results = lib.run_tasks(tasks, timeout=90)
+    N = WITNESS_N
+    results = shared_polar_runs()["witness"]
     exact = oracle.exact_moments(ctx, [(p, [{g: 1}], N) for _, p, g, _ in WITNESSES], timeout=120)
     out = []
     for (sig, p, g, why), r, ex in zip(WITNESSES, results, exact):
@@ -118,21 +116,49 @@ PROBES = [
 ]
 
 
+WITNESS_N = 3
+_CACHE = {}
+
+
+def ensure_built(target, deps=()):
+    """build a theories/*.vo target only if it is missing or older than its source / dependencies
+    (c02.py has just built the props files, which depend on all of them)"""
+    import os
+    vo = os.path.join(lib.COQ, target)
+    srcs = [vo[:-1]] + [os.path.join(lib.COQ, d) for d in deps]
+    if os.path.exists(vo) and all(os.path.exists(x) and os.path.getmtime(vo) >= os.path.getmtime(x) for x in srcs):
+        return True, ""
+    return lib.coq_make([target])
+
+
+def shared_polar_runs():
+    """all seeded probes of pass_constants / pass_dist and the two witnesses, run through the
+    real Polar in ONE pool of worker processes (cached for the process)"""
+    if "r" in _CACHE:
+        return _CACHE["r"]
+    import pass_dist
+    texts_c = PROBES + [P.prog_text(p) for _, p, _, _ in WITNESSES]
+    texts_d = list(pass_dist.PROBES)
+    tasks = [{"kind": "pass_snapshots", "text": t, "opts": {}, "timeout": 60} for t in texts_c + texts_d]
+    tasks += [{"kind": "analyze", "text": P.prog_text(p), "goals": [g], "nvals": WITNESS_N + 1, "all_monomials": False, "timeout": 90}
+              for _, p, g, _ in WITNESSES]
+    res = lib.run_tasks(tasks, timeout=90)
+
+    def runs(texts, rs):
+        return [{"text": t, "opts": {}, "snapshots": r.get("snapshots") or [], "probe": True} for t, r in zip(texts, rs) if "error" not in r]
+    n1, n2 = len(texts_c), len(texts_c) + len(texts_d)
+    _CACHE["r"] = {"constants": runs(texts_c, res[:n1]), "dist": runs(texts_d, res[n1:n2]), "witness": res[n2:]}
+    return _CACHE["r"]
+
+
 def probe_runs():
-    texts = PROBES + [P.prog_text(p) for _, p, _, _ in WITNESSES]
-    tasks = [{"kind": "pass_snapshots", "text": t, "opts": {}, "timeout": 60} for t in texts]
-    out = []
-    for t, r in zip(texts, lib.run_tasks(tasks, timeout=60)):
-        if "error" in r:
-            continue
-        out.append({"text": t, "opts": {}, "snapshots": r.get("snapshots") or [], "probe": True})
-    return out
+    return shared_polar_runs()["constants"]
 
 
 def run_pass(ctx, runs):
     import time
     t0 = time.time()
-    ok, log = lib.coq_make(["theories/PassConstants.vo"])
+    ok, log = ensure_built("theories/PassConstants.vo", ["theories/PassCNBase.vo"])
     cov = ctx.coverage.setdefault("pass_models", {})
     st = {"instances": 0, "model_equals_polar": 0, "hypothesis_constants_ok": 0, "hypothesis_false": 0, "something_folded": 0,
           "not_modelled": 0, "coq_failed": 0}
